@@ -206,3 +206,9 @@ MANIFEST_ENTRY = dict(
     note='Bounded shapes, generic rational parameters, log/exp uninterpreted (tier B); the entropy-weight -> 0 limit is not decidable by a contract on one call (sampled at run time only).',
 )
 END_MANIFEST_ENTRY = True
+
+
+SENTINELS = globals().get('SENTINELS', []) + [
+    Sentinel('improvement-scales-the-prior-too', 'msdm.algorithms.entregpolicyiteration', '        new_pi = torch.softmax(q_action + torch.log(pi0), -1)',
+             '        new_pi = torch.softmax(q_action + (1/entropy_weight[:,None])*torch.log(pi0), -1)', ['re:^step/S2A2/weight-scalar/prior-shared']),
+]
